@@ -1153,6 +1153,55 @@ func (ex *explorer) run(st *State, blk *ssa.BasicBlock, idx int, prev *ssa.Basic
 					}
 					p.PhiOut[phi] = ex.eval(st, phi.Edges[pi])
 				}
+				// flag loops (`for more := true; more; more = step()`): the head tests nothing but a loop-carried
+				// boolean. The test is decided on the arriving path, where the value is still a term of this path: a
+				// constant that leaves the loop is followed out; a symbolic value is split into its two cases, the
+				// case that stays arrives with the flag known.
+				if flag, exitOn, outBlk, ok := flagLoopHead(blk); ok && len(st.frames) > 0 && st.top().fn == blk.Parent() {
+					v := p.PhiOut[flag]
+					leave := func(ns *State) {
+						f := ns.top()
+						for phi, t := range p.PhiOut {
+							f.env[phi] = t
+						}
+						f.env[flag] = boolT(exitOn)
+						ex.run(ns, outBlk, 0, blk, false)
+					}
+					if v != nil && v.IsConst() && (v.Aux == "true" || v.Aux == "false") {
+						if (v.Aux == "true") == exitOn {
+							leave(st)
+							return
+						}
+					} else if v != nil && !(v.Op == "extract" && len(v.Args) == 1 && v.Args[0].Op == "recv") {
+						// (the ok of a comma-ok receive stays a loop-carried flag: `for x, ok := <-in; ok; x, ok = <-in`
+						// is the receive loop, recognised as such by the rules)
+						atom, pol := Atom(v)
+						if !atom.IsConst() {
+							known, isKnown := st.facts[atom.Key()]
+							for _, av := range []bool{true, false} {
+								if isKnown && known != av {
+									continue
+								}
+								val := av == pol // the flag's value in this case
+								ns := st.Clone()
+								ns.facts[atom.Key()] = av
+								ex.emit(ns, Step{Kind: KBranch, Instr: blk.Instrs[len(blk.Instrs)-1], Atom: atom, Pol: av})
+								if val == exitOn {
+									leave(ns)
+									continue
+								}
+								q := &Path{To: blk, PhiOut: map[*ssa.Phi]*Term{}}
+								for phi, t := range p.PhiOut {
+									q.PhiOut[phi] = t
+								}
+								q.PhiOut[flag] = boolT(val)
+								ex.budget--
+								ex.finish(ns, q)
+							}
+							return
+						}
+					}
+				}
 				ex.budget--
 				ex.finish(st, p)
 				return
@@ -1309,6 +1358,54 @@ func (ex *explorer) run(st *State, blk *ssa.BasicBlock, idx int, prev *ssa.Basic
 			continue
 		}
 	}
+}
+
+// flagLoopHead: the loop head blk consists of phis followed by a branch on one of its own boolean phis (or its
+// negation), with one successor inside the loop and one outside. Returns the phi, the flag value that leaves the
+// loop and the block outside.
+func flagLoopHead(blk *ssa.BasicBlock) (*ssa.Phi, bool, *ssa.BasicBlock, bool) {
+	n := len(blk.Instrs)
+	if n < 2 || len(blk.Succs) != 2 {
+		return nil, false, nil, false
+	}
+	iff, ok := blk.Instrs[n-1].(*ssa.If)
+	if !ok {
+		return nil, false, nil, false
+	}
+	cond := iff.Cond
+	neg := false
+	rest := blk.Instrs[:n-1]
+	if u, isU := cond.(*ssa.UnOp); isU && u.Op == token.NOT && u.Block() == blk {
+		cond, neg = u.X, true
+		// the negation must be the only non-phi instruction
+		if len(rest) == 0 || rest[len(rest)-1] != ssa.Instruction(u) {
+			return nil, false, nil, false
+		}
+		rest = rest[:len(rest)-1]
+	}
+	phi, isPhi := cond.(*ssa.Phi)
+	if !isPhi || phi.Block() != blk {
+		return nil, false, nil, false
+	}
+	for _, in := range rest {
+		if _, isP := in.(*ssa.Phi); !isP {
+			return nil, false, nil, false
+		}
+	}
+	lb := LoopBlocks(blk)
+	in0, in1 := lb[blk.Succs[0]], lb[blk.Succs[1]]
+	if in0 == in1 {
+		return nil, false, nil, false
+	}
+	// Succs[0] is taken when cond (after negation) is true
+	takenTrueLeaves := !in0
+	out := blk.Succs[1]
+	if takenTrueLeaves {
+		out = blk.Succs[0]
+	}
+	// flag value that leaves: cond' = flag XOR neg ; leaves when cond' == takenTrueLeaves
+	exitOn := takenTrueLeaves != neg
+	return phi, exitOn, out, true
 }
 
 func predIndex(b, prev *ssa.BasicBlock) int {
